@@ -231,4 +231,31 @@ def ehistCmd (f : List String) : Option String :=
     some s!"ehist same={okStr same} computes={w.outs.length} implcomputes={obs.length} nodes={w.store.size}"
   | _ => none
 
+def parseMOp (s : String) : Option EngineT.MOp :=
+  match s.splitOn "~" with
+  | ["E", ns, ls, mn, mx, alg, den, sw] => (parseFOpts ns ls mn mx alg den sw).map EngineT.MOp.newEngine
+  | ["O", ns, ls, mn, mx, alg, den, sw] => (parseFOpts ns ls mn mx alg den sw).map EngineT.MOp.setOptions
+  | ["N", labels] => (parseList "," parseLabel labels).map EngineT.MOp.freshNodes
+  | ["L", b] => (parseNat b).map EngineT.MOp.useList
+  | ["W", k] => (parseNat k).map EngineT.MOp.switch
+  | ["C"] => some EngineT.MOp.compute
+  | _ => none
+
+/-- `mhist|ops|k>obs#k>obs#…` — an interleaving of operations on SEVERAL real `Force` objects alive at the same time that share the caller's
+list objects and the `Node` objects in them, replayed on `EngineT.MWorld`: after EVERY compute, which engine computed and its observation
+must be EQUAL (exact mode) -/
+def mhistCmd (f : List String) : Option String :=
+  match f with
+  | [ops, obs] => do
+    let ops ← parseList ";" parseMOp ops
+    let obs ← (if obs.trimAscii.toString == "" then some [] else (obs.splitOn "#").mapM (fun o =>
+      match o.splitOn ">" with
+      | [k, l] => do some (← parseNat k, ← parseObsLayers l)
+      | _ => none))
+    let w := EngineT.MWorld.run ops
+    let same := w.outs == obs
+    let reordered := (w.lists.zip w.created).any (fun p => p.1 != p.2)
+    some s!"mhist same={okStr same} computes={w.outs.length} implcomputes={obs.length} nodes={w.store.size} engines={w.engines.length} lists={w.lists.length} reordered={if reordered then 1 else 0}"
+  | _ => none
+
 end Labella.Driver
